@@ -380,8 +380,9 @@ def run(chk):
     chk.assumptions = [
         "cell values and literal template text contain no angle brackets (quantifier: the sequential replace of the code "
         "re-substitutes a cell that is itself a placeholder -- shown by an ASSUME in Outline_MC, not judged)",
-        "behave's extra placeholders <row.id> <row.index> <examples.name> <examples.index> and placeholders in the "
-        "Examples name are not used (statement silent)",
+        "behave's pseudo-columns <row.id> <row.index> <examples.name> <examples.index> are used in the outline name, step "
+        "names and tags only (the code does not substitute them in doc-strings and step tables: statement silent); the "
+        "examples name is the block's own name with the row's cells; Examples names use <column> placeholders only",
         "an outline tag that still contains an unknown placeholder after substitution may be dropped or kept (not asserted)",
         "C06.tags/C06.subst on tags only for rows whose referenced cells are tag-safe (Tag.make_name: blank -> _, others dropped)",
         "identity of the cached list between two accesses without modification is not asserted (statement silent)",
